@@ -309,6 +309,12 @@ def run(doc, log):
     else:
         job = fem.FreeVibration(w.items, w.boundaries)
     bounds0 = dict(w.boundaries)
+    if all(i_["type"] == "SolidBody" for i_ in doc["items"]) and pick(doc["seed"], "column-major-values", 4) == 0:
+        # the value arrays of the fields as a caller may hand them over (values=A.T, restored from a
+        # file column by column): column-major memory layout
+        for f_ in w.field.fields:
+            f_.values = np.asfortranarray(f_.values)
+        log.count("column-major-field-values")
     sim = SimEigsh(log, doc.get("fault"))
     sim.order = ("ascending", "ascending", "descending", "rotated")[pick(doc["seed"], "solver-order", 4)]
     K, M, dof1 = independent_operators(doc, w)
